@@ -29,6 +29,8 @@ import ast
 from gv import rules
 from gv import symexpr
 from gv.astutil import AnalysisError
+from gv.astutil import as_update
+from gv.astutil import decorator_names
 from gv.astutil import dotted
 from gv.astutil import kwarg
 from gv.astutil import last_attr
@@ -38,6 +40,7 @@ from gv.astutil import stmts_of
 from gv.astutil import walk_body
 from gv.cfg import cfg_of
 from gv.props.shared import literal_facts
+from gv.props.shared import unfolded
 from gv.props import describe
 from gv.props.shared import conj_literals
 from gv.report import Ctx
@@ -149,6 +152,82 @@ def _first_param(f: ast.FunctionDef) -> str:
     return [p for p in param_names(f) if p != "self"][0]
 
 
+def _arg(call: ast.Call, pos: int, name: str | None = None) -> ast.AST | None:
+    """Argument of a call by position or, when the parameter can be named, by keyword."""
+    if name is not None:
+        k = kwarg(call, name)
+        if k is not None:
+            return k
+    if pos < len(call.args) and not any(isinstance(a, ast.Starred) for a in call.args[: pos + 1]):
+        return call.args[pos]
+    return None
+
+
+def _property_value(cls, e: ast.AST | None) -> ast.AST | None:
+    """``self.p`` -> the expression returned by the read-only property ``p`` of ``cls`` (docstring + one return)."""
+    if isinstance(e, ast.Attribute) and dotted(e.value) == "self":
+        m = cls.methods.get(e.attr)
+        if m is not None and "property" in decorator_names(m):
+            body = [b for b in m.body if not (isinstance(b, ast.Expr) and isinstance(b.value, ast.Constant))]
+            if len(body) == 1 and isinstance(body[0], ast.Return) and body[0].value is not None:
+                return body[0].value
+    return e
+
+
+def _memberships(test: ast.AST, rename: dict[str, str] | None = None) -> list[tuple[bool, ast.AST, ast.AST]] | None:
+    """A conjunction of membership tests as [(is member, element, container)]; None for anything else."""
+    out = []
+    for pol, e in conj_literals(test):
+        if not (isinstance(e, ast.Compare) and len(e.ops) == 1 and isinstance(e.ops[0], (ast.In, ast.NotIn))):
+            return None
+        left = e.left
+        if rename and isinstance(left, ast.Name) and left.id in rename:
+            left = ast.Name(id=rename[left.id], ctx=ast.Load())
+        out.append((pol if isinstance(e.ops[0], ast.In) else not pol, left, e.comparators[0]))
+    return out
+
+
+def _selected_names(cls, loop: ast.For, defs: dict) -> tuple[str, ast.AST, list, list[ast.stmt]] | None:
+    """The elements a loop acts on: (loop variable, iterated collection, membership conditions, guarded body).
+
+    ``for n in [m for m in X if c(m)]: B``, ``for n in X: if c(n): B``, ``for n in X: if not c(n): continue; B`` and a
+    read-only property returning such a comprehension all give (n, X, [c], B).  None when the selection is made of
+    anything else than membership tests on the loop variable.
+    """
+    if not isinstance(loop.target, ast.Name) or loop.orelse:
+        return None
+    lv = loop.target.id
+    over = _property_value(cls, _resolve(loop.iter, defs))
+    conds: list = []
+    while isinstance(over, (ast.ListComp, ast.GeneratorExp)):
+        if len(over.generators) != 1 or over.generators[0].is_async:
+            return None
+        g = over.generators[0]
+        if not (isinstance(g.target, ast.Name) and isinstance(over.elt, ast.Name) and over.elt.id == g.target.id):
+            return None
+        for t in g.ifs:
+            ms = _memberships(t, {g.target.id: lv})
+            if ms is None:
+                return None
+            conds += ms
+        over = _property_value(cls, _resolve(g.iter, defs) if isinstance(g.iter, ast.Name) and g.iter.id != g.target.id else g.iter)
+    body = list(loop.body)
+    while body and isinstance(body[0], ast.If):
+        first = body[0]
+        if len(body) == 1 and not first.orelse:
+            ms = _memberships(first.test)
+            body = list(first.body)
+        elif not first.orelse and len(first.body) == 1 and isinstance(first.body[0], ast.Continue):
+            ms = _memberships(ast.UnaryOp(op=ast.Not(), operand=first.test))
+            body = body[1:]
+        else:
+            return None
+        if ms is None:
+            return None
+        conds += ms
+    return lv, over, conds, body
+
+
 # ---------------------------------------------------------------- 19.1
 def check_forwarding(ctx: Ctx) -> None:
     ds = ctx.index.cls(DS, "DesignSpace")
@@ -247,18 +326,18 @@ def check_transform_pair(ctx: Ctx) -> None:
                         geo = name
         ok = False
         node = h
+        # the names with a marginal: the keys of evaluate_cdf's result (19.2-keys), i.e. the uncertain variables, i.e.
+        # the keys of self.distributions (19.6)
+        with_marginal = {res_var, "self.uncertain_variables", "self.distributions", "self.distributions.keys()"}
         for loop in [s for s in stmts_of(h) if isinstance(s, ast.For)]:
-            it = _resolve(loop.iter, defs)
-            lv = dotted(loop.target)
-            if not (isinstance(it, ast.ListComp) and len(it.generators) == 1):
+            sel = _selected_names(idx.cls(PS, "ParameterSpace"), loop, defs)
+            if sel is None:
                 continue
-            g = it.generators[0]
-            cond_ok = len(g.ifs) == 1 and isinstance(g.ifs[0], ast.Compare) and isinstance(g.ifs[0].ops[0], ast.NotIn) and dotted(g.ifs[0].left) == dotted(g.target) == dotted(it.elt) and dotted(g.ifs[0].comparators[0]) == res_var
-            over = norm_stmt(_resolve(g.iter, defs)) in ACCEPTED_NAME_ORDERS
-            body = [s for s in loop.body if isinstance(s, ast.Assign)]
-            asg = len(body) == 1 and len(loop.body) == 1 and norm_stmt(body[0].targets[0]) == f"{res_var}[{lv}]" and norm_stmt(body[0].value) == f"{geo}[{lv}]"
+            lv, over, conds, body = sel
+            cond_ok = len(conds) == 1 and conds[0][0] is False and dotted(conds[0][1]) == lv and bool({norm_stmt(conds[0][2]), norm_stmt(_resolve(conds[0][2], defs))} & with_marginal)
+            asg = len(body) == 1 and isinstance(body[0], ast.Assign) and len(body[0].targets) == 1 and norm_stmt(body[0].targets[0]) == f"{res_var}[{lv}]" and norm_stmt(body[0].value) == f"{geo}[{lv}]"
             node = loop
-            ok = bool(cond_ok and over and asg and geo and res_var)
+            ok = bool(cond_ok and norm_stmt(_resolve(over, defs)) in ACCEPTED_NAME_ORDERS and asg and geo and res_var)
         ctx.ob("19.2-fallback", conh, ok, f"{helper}: exactly the variables without a marginal distribution must take the value of DesignSpace.{mname} of the same vector, under their own name", node=node, stmt="affine fallback for names missing from the marginals")
         rets = [s for s in stmts_of(h) if isinstance(s, ast.Return)]
         ok = len(rets) == 1 and concats and rets[0].value is concats[0] and dotted(concats[0].args[0]) == res_var
@@ -269,15 +348,21 @@ def check_transform_pair(ctx: Ctx) -> None:
     con = cname(PS, "ParameterSpace", "evaluate_cdf")
     defs = _defs(f)
     ga = [c for c in walk_body(f) if isinstance(c, ast.Call) and dotted(c.func) == "getattr"]
-    ok = len(ga) == 1
     pol = None
-    if ok:
-        sel = _resolve(ga[0].args[1], defs)
-        if isinstance(sel, ast.IfExp) and isinstance(sel.body, ast.Constant) and isinstance(sel.orelse, ast.Constant):
-            lits = conj_literals(sel.test)
-            if len(lits) == 1 and dotted(lits[0][1]) == "inverse":
-                t, e = (sel.body.value, sel.orelse.value) if lits[0][0] else (sel.orelse.value, sel.body.value)
-                pol = (t, e)
+    if len(ga) == 1 and len(ga[0].args) >= 2:
+        # the attribute name under each value of ``inverse``, whether selected by a conditional expression or statement
+        st_ga = rules.enclosing_stmt(f, ga[0])
+
+        def selected(value: bool):
+            found = [c for c in ast.walk(st_ga) if isinstance(c, ast.Call) and dotted(c.func) == "getattr" and len(c.args) >= 2]
+            alts = unfolded(f, st_ga, facts={"inverse": value}, get=lambda s_: next((c.args[1] for c in ast.walk(s_) if isinstance(c, ast.Call) and dotted(c.func) == "getattr" and len(c.args) >= 2), None)) if len(found) == 1 else None
+            vals = {a.value if isinstance(a, ast.Constant) else None for a in alts or [None]}
+            return next(iter(vals)) if len(vals) == 1 else None
+
+        reassigned = any(isinstance(n_, ast.Name) and n_.id == "inverse" and isinstance(n_.ctx, ast.Store) for n_ in ast.walk(f))
+        pol = None if reassigned else (selected(True), selected(False))
+        if pol == (None, None):
+            pol = None
     ctx.ob("19.2-polarity", con, pol == ("compute_inverse_cdf", "compute_cdf"), f"evaluate_cdf must select compute_inverse_cdf iff inverse (selected: {pol})", node=(ga or [f])[0], stmt="compute_inverse_cdf iff inverse")
     loops = [s for s in stmts_of(f) if isinstance(s, ast.For) and ga and ga[0] in list(ast.walk(s))]
     ok = len(loops) == 1 and norm_stmt(loops[0].iter) == "self.uncertain_variables" and isinstance(loops[0].target, ast.Name)
@@ -326,6 +411,46 @@ DELEGATION = [
 JOINT_FROM_MARGINALS = [("mean", "mean"), ("standard_deviation", "standard_deviation"), ("compute_samples", "compute_samples")]
 
 
+# the marginals of a joint distribution are wrappers of this class: ``marginal.compute_cdf(v)`` is what the wrapper's
+# method returns (itself an entry of DELEGATION), i.e. the library routine on ``marginal.distribution``
+MARGINAL_WRAPPER = {"SPJointDistribution": (SPD, "SPDistribution"), "OTJointDistribution": (OTD, "OTDistribution")}
+
+
+def _inline_wrapper_calls(func: ast.AST, wrapper, methods: set[str]) -> ast.AST:
+    """Copy of ``func`` in which ``<name>.<m>(args)`` (``name`` a local other than ``self``, ``m`` a one-return method of
+    ``wrapper`` listed in ``methods``) is replaced by the returned expression with ``self`` and the parameters bound."""
+    import copy
+
+    class R(ast.NodeTransformer):
+        def visit_Call(self, n):  # noqa: N802
+            self.generic_visit(n)
+            if not (isinstance(n.func, ast.Attribute) and isinstance(n.func.value, ast.Name) and n.func.value.id != "self" and n.func.attr in methods):
+                return n
+            m = wrapper.methods.get(n.func.attr)
+            if m is None or "property" in decorator_names(m):
+                return n
+            body = [b for b in m.body if not (isinstance(b, ast.Expr) and isinstance(b.value, ast.Constant))]
+            params = [p for p in param_names(m) if p != "self"]
+            if not (len(body) == 1 and isinstance(body[0], ast.Return) and body[0].value is not None) or m.args.vararg or m.args.kwarg:
+                return n
+            if any(isinstance(a, ast.Starred) for a in n.args) or len(n.args) > len(params) or any(k.arg not in params for k in n.keywords):
+                return n
+            bind = {"self": n.func.value, **dict(zip(params, n.args)), **{k.arg: k.value for k in n.keywords}}
+            if any(p not in bind for p in params):
+                return n  # defaults are not looked up: leave the call as it is
+
+            class B(ast.NodeTransformer):
+                def visit_Name(self, x):  # noqa: N802
+                    return copy.deepcopy(bind[x.id]) if isinstance(x.ctx, ast.Load) and x.id in bind else x
+
+            new = B().visit(copy.deepcopy(body[0].value))
+            for x in ast.walk(new):
+                ast.copy_location(x, n)
+            return new
+
+    return R().visit(copy.deepcopy(func))
+
+
 def check_delegation(ctx: Ctx) -> None:
     idx = ctx.index
     for rel, cls, m, accepted in DELEGATION:
@@ -334,6 +459,8 @@ def check_delegation(ctx: Ctx) -> None:
         if f is None:
             ctx.ob("19.3-delegation", con, False, f"{cls}.{m} is not defined: the quantity would come from another routine", node=idx.cls(rel, cls).node, stmt=f"{m} defined")
             continue
+        if cls in MARGINAL_WRAPPER:
+            f = _inline_wrapper_calls(f, idx.cls(*MARGINAL_WRAPPER[cls]), {m_ for r_, c_, m_, _ in DELEGATION if (r_, c_) == MARGINAL_WRAPPER[cls]})
         called = set()
         for c in walk_body(f):
             if isinstance(c, ast.Call) and isinstance(c.func, ast.Attribute) and norm_stmt(c.func.value).endswith("distribution"):
@@ -540,8 +667,13 @@ def check_bounds(ctx: Ctx) -> None:
             f = idx.method(rel, cls, prop)
             con = cname(rel, cls, prop)
             rets = [s for s in stmts_of(f) if isinstance(s, ast.Return)]
-            attrs = [n.attr for n in ast.walk(rets[0]) if isinstance(n, ast.Attribute) and dotted(n.value) == "self"] if len(rets) == 1 else []
-            ctx.ob("19.5-bounds", con, attrs == [f"{kind}_lower_bound", f"{kind}_upper_bound"], f"{cls}.{prop} must be [{kind}_lower_bound, {kind}_upper_bound] (it uses {attrs})", node=(rets or [f])[0], stmt=f"{prop} = ({kind} lower, {kind} upper)")
+            # the returned value with the locals it reads unfolded: every alternative reads the two bounds in that order
+            alts = (unfolded(f, rets[0].value) or []) if len(rets) == 1 and rets[0].value is not None else []
+            attrs_of = [[n.attr for n in sorted(ast.walk(a), key=lambda n: (getattr(n, "lineno", 0), getattr(n, "col_offset", 0))) if isinstance(n, ast.Attribute) and dotted(n.value) == "self"] for a in alts]
+            attrs = attrs_of[0] if attrs_of else []
+            want = [f"{kind}_lower_bound", f"{kind}_upper_bound"]
+            bad = next((a for a in attrs_of if a != want), attrs)
+            ctx.ob("19.5-bounds", con, bool(attrs_of) and all(a == want for a in attrs_of), f"{cls}.{prop} must be [{kind}_lower_bound, {kind}_upper_bound] (it uses {bad})", node=(rets or [f])[0], stmt=f"{prop} = ({kind} lower, {kind} upper)")
     f = idx.method(BJ, "BaseJointDistribution", "_set_bounds")
     con = cname(BJ, "BaseJointDistribution", "_set_bounds")
     seen = set()
@@ -571,6 +703,12 @@ def check_bounds(ctx: Ctx) -> None:
             elif isinstance(t, ast.Attribute) and dotted(t.value) == "self":
                 asg[t.attr] = s
     s_ = asg.get(("math_lower_bound", "math_upper_bound"))
+    if s_ is None and isinstance(getattr(asg.get("math_lower_bound"), "value", None), ast.Name) and isinstance(getattr(asg.get("math_upper_bound"), "value", None), ast.Name):
+        # ``lower, upper = <pair>`` stored attribute by attribute: the pair is what the two locals were unpacked from
+        pair = [asg["math_lower_bound"].value.id, asg["math_upper_bound"].value.id]
+        unpack = [x for x in stmts_of(f) if isinstance(x, ast.Assign) and isinstance(x.targets[0], ast.Tuple) and [dotted(e) for e in x.targets[0].elts] == pair]
+        if len(unpack) == 1 and all(len(defs.get(n_, ())) == 1 for n_ in pair) and pair[0] != pair[1]:
+            s_ = unpack[0]
     ok = s_ is not None and isinstance(s_.value, ast.Call) and last_attr(s_.value) in ("interval", "support") and (last_attr(s_.value) == "support" or (s_.value.args and isinstance(s_.value.args[0], ast.Constant) and s_.value.args[0].value == 1.0))
     ctx.ob("19.5-scipy", con, bool(ok), "the support of a SciPy distribution is (lower, upper) = distribution.interval(1.0)", node=s_ or f, stmt="math bounds = interval(1.0)")
     lo, up = asg.get("num_lower_bound"), asg.get("num_upper_bound")
@@ -592,28 +730,31 @@ def check_bounds(ctx: Ctx) -> None:
     # OpenTURNS
     f = idx.method(OTD, "OTDistribution", "__set_bounds")
     con = cname(OTD, "OTDistribution", "__set_bounds")
-    defs = _defs(f)
     for side, getter, finite, infinite in (("lower", "getLowerBound", "getFiniteLowerBound", "-inf"), ("upper", "getUpperBound", "getFiniteUpperBound", "inf")):
         num = [s for s in stmts_of(f) if isinstance(s, ast.Assign) and norm_stmt(s.targets[0]) == f"self.num_{side}_bound"]
         mth = [s for s in stmts_of(f) if isinstance(s, ast.Assign) and norm_stmt(s.targets[0]) == f"self.math_{side}_bound"]
-        ok = len(num) == 1 and len(mth) == 1 and isinstance(num[0].value, ast.Name) and isinstance(mth[0].value, ast.Name) and num[0].value.id == mth[0].value.id
+        # the condition(s) deciding on the finiteness flag of this side, whatever construct (if / conditional expression) tests it
+        keys = set()
+        for t in walk_body(f):
+            if isinstance(t, (ast.If, ast.IfExp, ast.While)):
+                for _pol, e in conj_literals(t.test):
+                    if any(finite in ast.unparse(a) for a in (unfolded(f, e) or [e])):
+                        keys.add(norm_stmt(e))
+        ok = bool(num) and bool(mth) and len(keys) == 1
         if ok:
-            v = num[0].value.id
-            vals = defs.get(v, [])
-            base = [d for d in vals if getter in norm_stmt(d)]
-            inf_ = [d for d in vals if norm_stmt(d) == infinite]
-            ok = len(vals) == 2 and len(base) == 1 and len(inf_) == 1
-            cfg = cfg_of(f)
-            ifs = [s for s in stmts_of(f) if isinstance(s, ast.If) and finite in norm_stmt(s.test)]
-            ok = ok and len(ifs) == 1
-            if ok:
-                lits = conj_literals(ifs[0].test)
-                # the branch taken when the bound is NOT finite holds the single replacement by +/- infinity
-                not_finite = ifs[0].body if (len(lits) == 1 and lits[0][0] is False) else ifs[0].orelse
-                finite_br = ifs[0].orelse if (len(lits) == 1 and lits[0][0] is False) else ifs[0].body
-                ok = len(lits) == 1 and all(isinstance(x_, ast.Pass) for x_ in finite_br) and len(not_finite) == 1 and isinstance(not_finite[0], ast.Assign) and dotted(not_finite[0].targets[0]) == v and norm_stmt(not_finite[0].value) == infinite
-                # numerical bound stored before, mathematical bound after the replacement
-                ok = ok and num[0].lineno < ifs[0].lineno < mth[0].lineno and cfg.has(num[0])
+            key = next(iter(keys))
+
+            def stored(stmts, is_finite, key=key):
+                """Unfolded alternatives of the value stored by the one statement of ``stmts`` executed under the flag."""
+                alts = [a for a in (unfolded(f, s, facts={key: is_finite}, get=lambda s_: s_.value) for s in stmts) if a is not None]
+                return sorted(ast.unparse(x) for x in alts[0]) if len(alts) == 1 else None
+
+            for is_finite in (True, False):
+                n_, m_ = stored(num, is_finite), stored(mth, is_finite)
+                # the numerical bound is the library's bound whatever the flag ...
+                ok = ok and bool(n_) and all(t.endswith(f".{getter}()[0]") and "inf" not in {x.id for x in ast.walk(ast.parse(t)) if isinstance(x, ast.Name)} for t in n_)
+                # ... the mathematical one is that same bound when it is finite, the infinity of the side's sign otherwise
+                ok = ok and bool(m_) and (m_ == n_ if is_finite else m_ == [infinite])
         ctx.ob("19.5-openturns", con, bool(ok), f"OpenTURNS {side} bound: the numerical bound is {getter}(), the mathematical one is {infinite} exactly when {finite}() is false", node=(mth or [f])[0], stmt=f"{side} bound: numerical = {getter}, mathematical = {infinite} iff not {finite}")
     g = idx.method(OTD, "OTDistribution", "_create_distribution")
     cfg = cfg_of(g)
@@ -646,6 +787,79 @@ def _mutations(f: ast.FunctionDef) -> list[ast.stmt]:
     return out
 
 
+def _identity_iter(e: ast.AST) -> ast.AST:
+    """``[m for m in E]`` / ``list(E)`` / ``tuple(E)`` -> ``E`` (the same elements in the same order)."""
+    while True:
+        if isinstance(e, (ast.ListComp, ast.GeneratorExp)) and len(e.generators) == 1 and not e.generators[0].ifs and isinstance(e.elt, ast.Name) and isinstance(e.generators[0].target, ast.Name) and e.elt.id == e.generators[0].target.id:
+            e = e.generators[0].iter
+        elif isinstance(e, ast.Call) and dotted(e.func) in ("list", "tuple") and len(e.args) == 1 and not e.keywords:
+            e = e.args[0]
+        else:
+            return e
+
+
+def _concatenations(func: ast.AST) -> list[dict]:
+    """Lists that are the concatenation, for ``target`` running over ``iter`` in order, of the sequences ``inner``.
+
+    ``[m for t in it for m in E]``; ``xs = []`` followed by ``for t in it: xs.extend(E)`` / ``xs += E`` /
+    ``for m in E: xs.append(m)``; ``chain.from_iterable(E for t in it)``.  One record per list:
+    ``{"name" (None when anonymous), "iter", "target", "inner", "node"}``.  A comprehension with a filter, a list that
+    is not empty before the loop or that is modified elsewhere is not a plain concatenation and gives no record
+    (the caller, which wants exactly one, then fails).
+    """
+    out = []
+    named = {}
+    for s_ in stmts_of(func):
+        if isinstance(s_, ast.Assign) and len(s_.targets) == 1 and isinstance(s_.targets[0], ast.Name):
+            named[id(s_.value)] = s_.targets[0].id
+    for n_ in walk_body(func):
+        if isinstance(n_, (ast.ListComp, ast.GeneratorExp)) and len(n_.generators) == 2:
+            g0, g1 = n_.generators
+            if not g0.ifs and not g1.ifs and isinstance(n_.elt, ast.Name) and isinstance(g1.target, ast.Name) and n_.elt.id == g1.target.id:
+                out.append({"name": named.get(id(n_)), "iter": g0.iter, "target": g0.target, "inner": _identity_iter(g1.iter), "node": n_})
+        elif isinstance(n_, ast.Call) and (dotted(n_.func) or "").endswith("chain.from_iterable") and len(n_.args) == 1 and isinstance(n_.args[0], (ast.ListComp, ast.GeneratorExp)) and len(n_.args[0].generators) == 1 and not n_.args[0].generators[0].ifs:
+            g0 = n_.args[0].generators[0]
+            out.append({"name": None, "iter": g0.iter, "target": g0.target, "inner": _identity_iter(n_.args[0].elt), "node": n_})
+    cfg = None
+    for lp in [s_ for s_ in stmts_of(func) if isinstance(s_, ast.For)]:
+        if lp.orelse or len(lp.body) != 1:
+            continue
+        b = lp.body[0]
+        name = inner = None
+        if isinstance(b, ast.Expr) and isinstance(b.value, ast.Call) and isinstance(b.value.func, ast.Attribute) and b.value.func.attr == "extend" and isinstance(b.value.func.value, ast.Name) and len(b.value.args) == 1 and not b.value.keywords:
+            name, inner = b.value.func.value.id, b.value.args[0]
+        elif as_update(b) is not None and isinstance(as_update(b)[1], ast.Add) and isinstance(as_update(b)[0], ast.Name) and not (isinstance(b, ast.Assign) and ast.unparse(b.value.left) != b.targets[0].id):
+            name, inner = as_update(b)[0].id, as_update(b)[2]
+        elif isinstance(b, ast.For) and not b.orelse and len(b.body) == 1 and isinstance(b.target, ast.Name) and isinstance(b.body[0], ast.Expr) and isinstance(b.body[0].value, ast.Call) and isinstance(b.body[0].value.func, ast.Attribute) and b.body[0].value.func.attr == "append" and isinstance(b.body[0].value.func.value, ast.Name) and len(b.body[0].value.args) == 1 and dotted(b.body[0].value.args[0]) == b.target.id:
+            name, inner = b.body[0].value.func.value.id, b.iter
+        if name is None:
+            continue
+        # empty before the loop, and touched by nothing else than this loop
+        inits = []
+        for s_ in stmts_of(func):
+            if s_ is b or not isinstance(s_, (ast.Assign, ast.AnnAssign, ast.AugAssign)):
+                continue
+            tgts = s_.targets if isinstance(s_, ast.Assign) else [s_.target]
+            if any(isinstance(t, ast.Name) and t.id == name and isinstance(t.ctx, ast.Store) for tgt in tgts for t in ast.walk(tgt)):
+                inits.append(s_)
+        v0 = inits[0].value if len(inits) == 1 and isinstance(inits[0], (ast.Assign, ast.AnnAssign)) and not (isinstance(inits[0], ast.Assign) and (len(inits[0].targets) != 1 or not isinstance(inits[0].targets[0], ast.Name))) else None
+        empty = (isinstance(v0, ast.List) and not v0.elts) or (isinstance(v0, ast.Call) and dotted(v0.func) == "list" and not v0.args and not v0.keywords)
+        muts = [c for c in walk_body(func) if isinstance(c, ast.Call) and isinstance(c.func, ast.Attribute) and isinstance(c.func.value, ast.Name) and c.func.value.id == name and c.func.attr in ("append", "extend", "insert", "pop", "remove", "clear", "sort", "reverse", "__iadd__")]
+        muts += [x for x in walk_body(func) if isinstance(x, ast.Subscript) and isinstance(x.ctx, (ast.Store, ast.Del)) and isinstance(x.value, ast.Name) and x.value.id == name]
+        own = sum(1 for c in ast.walk(lp) if any(c is m for m in muts))
+        rebound = any(isinstance(t, ast.Name) and t.id == name for x in walk_body(func) if isinstance(x, (ast.For, ast.comprehension)) for t in ast.walk(x.target))
+        if not empty or len(muts) != own or own > (0 if as_update(b) is not None else 1) or rebound:
+            continue
+        cfg = cfg or cfg_of(func)
+        if not (cfg.has(inits[0]) and cfg.has(lp) and cfg.dominates(cfg.node_of(inits[0]), cfg.node_of(lp))):
+            continue
+        # the loop must not itself sit in another loop (the list would be extended once per outer iteration)
+        if any(isinstance(o, (ast.For, ast.While)) and o is not lp and any(x is lp for x in ast.walk(o)) for o in stmts_of(func)):
+            continue
+        out.append({"name": name, "iter": lp.iter, "target": lp.target, "inner": _identity_iter(inner), "node": lp})
+    return out
+
+
 # rename_variable keeps the number, the order and the laws of the random variables: the joint distribution, which
 # holds no names, stays valid.
 NO_REBUILD_NEEDED = {"rename_variable"}
@@ -672,15 +886,22 @@ def check_space(ctx: Ctx) -> None:
     asg = {cfg.node_of(s) for s in rules.assigns_to_self(f, "distribution")}
     esc = cfg.escape_path(cfg.entry, asg)
     ctx.ob("19.6-rebuild", con, bool(asg) and esc is None, "build_joint_distribution leaves self.distribution untouched on a path: after the last random variable is removed the old joint distribution stays" + (f" (path: {cfg.describe_path(esc)})" if esc else ""), node=f, stmt="self.distribution assigned on every path")
-    comps = [n_ for n_ in walk_body(f) if isinstance(n_, ast.ListComp)]
-    ok = len(comps) == 1 and len(comps[0].generators) == 2
+    # the list of marginals, whether flattened by a two-level comprehension or by a loop extending a list
+    recs = _concatenations(f)
+    ok = len(recs) == 1
     if ok:
-        g0, g1 = comps[0].generators
-        ok = norm_stmt(g0.iter) == "self.uncertain_variables" and norm_stmt(g1.iter) == f"self.distributions[{dotted(g0.target)}].marginals" and dotted(comps[0].elt) == dotted(g1.target) and not g0.ifs and not g1.ifs
-    ctx.ob("19.6-order", con, bool(ok), "the joint distribution must be built from the marginals of the random variables in the order of uncertain_variables", node=(comps or [f])[0], stmt="marginals in the order of uncertain_variables")
+        r = recs[0]
+        ok = norm_stmt(r["iter"]) == "self.uncertain_variables" and isinstance(r["target"], ast.Name) and norm_stmt(r["inner"]) == f"self.distributions[{r['target'].id}].marginals"
+        # ... and this list is what the joint distribution is made of
+        made = [a for s_ in rules.assigns_to_self(f, "distribution") if isinstance(s_, ast.Assign) and isinstance(s_.value, ast.Call) for a in (unfolded(f, s_.value) or [s_.value])]
+        src = {r["name"]} if r["name"] else set()
+        txt = ast.unparse(r["node"]) if isinstance(r["node"], ast.expr) else None
+        ok = ok and bool(made) and all(isinstance(a, ast.Call) and any((isinstance(x, ast.Name) and x.id in src) or (txt is not None and ast.unparse(x) == txt) for x in (_identity_iter(arg) for arg in [*a.args, *[k.value for k in a.keywords]])) for a in made)
+    ctx.ob("19.6-order", con, bool(ok), "the joint distribution must be built from the marginals of the random variables in the order of uncertain_variables", node=(recs[0]["node"] if recs else f), stmt="marginals in the order of uncertain_variables")
     f = idx.method(PS, "ParameterSpace", "compute_samples")
     cs = _calls(f, "split_array_to_dict_of_arrays")
-    ok = len(cs) == 1 and norm_stmt(cs[0].args[1]) == "self.variable_sizes" and norm_stmt(cs[0].args[2]) == "self.uncertain_variables"
+    # ``names`` is a variadic parameter of split_array_to_dict_of_arrays: it can only be given by position
+    ok = len(cs) == 1 and norm_stmt(_arg(cs[0], 1, "names_to_sizes")) == "self.variable_sizes" and norm_stmt(_arg(cs[0], 2)) == "self.uncertain_variables" and len(cs[0].args) <= 3
     ctx.ob("19.6-order", cname(PS, "ParameterSpace", "compute_samples"), ok, "samples of the joint distribution have one block per random variable in the order of uncertain_variables; they must be split in that order", node=(cs or [f])[0])
     sm = [c for c in walk_body(f) if isinstance(c, ast.Call) and norm_stmt(c.func) == "self.distribution.compute_samples"]
     ctx.ob("19.6-order", cname(PS, "ParameterSpace", "compute_samples"), len(sm) == 1 and sm[0].args and dotted(sm[0].args[0]) == "n_samples", "compute_samples must sample the joint distribution n_samples times", node=(sm or [f])[0])
@@ -697,7 +918,9 @@ def check_space(ctx: Ctx) -> None:
         given = {sig[i]: a for i, a in enumerate(c.args)}
         given.update({k.arg: k.value for k in c.keywords})
         want = {"name": "name", "size": "self.distributions[name].dimension", "lower_bound": "self.distributions[name].math_lower_bound", "upper_bound": "self.distributions[name].math_upper_bound", "value": "self.distributions[name].mean"}
-        got = {k: norm_stmt(_resolve(given.get(k), defs)) for k in want}
+        # every argument with the locals it reads unfolded (``d = self.distributions[name]; d.mean`` is ``self.distributions[name].mean``)
+        alts = {k: sorted({norm_stmt(a) for a in (unfolded(f, given[k]) or [given[k]])}) if given.get(k) is not None else [] for k in want}
+        got = {k: (v[0] if len(v) == 1 else " | ".join(v)) for k, v in alts.items()}
         ok = got == want
     ctx.ob("19.6-design-variable", con, bool(ok), f"a random vector must enter the design space with the dimension, the support and the mean of its own distribution (got {got if av else None})", node=(av or [f])[0], stmt="add_variable(name, dimension, support, mean)")
     st = [s for s in stmts_of(f) if isinstance(s, ast.Assign) and norm_stmt(s.targets[0]) == "self.distributions[name]"]
@@ -721,7 +944,8 @@ def check_space(ctx: Ctx) -> None:
     # remove / rename
     f = idx.method(PS, "ParameterSpace", "remove_variable")
     con = cname(PS, "ParameterSpace", "remove_variable")
-    dl = [s for s in stmts_of(f) if isinstance(s, ast.Delete) and norm_stmt(s.targets[0]) == "self.distributions[name]"]
+    # ``del d[name]`` or, as a statement, ``d.pop(name)`` (without a default: a missing distribution stays an error)
+    dl = [s for s in stmts_of(f) if (isinstance(s, ast.Delete) and any(norm_stmt(t) == "self.distributions[name]" for t in s.targets)) or (isinstance(s, ast.Expr) and norm_stmt(s.value) == "self.distributions.pop(name)")]
     rm = [s for s in stmts_of(f) if isinstance(s, ast.Expr) and norm_stmt(s.value) == "self.uncertain_variables.remove(name)"]
     sc = rules.super_calls(f, "remove_variable")
     ctx.ob("19.6-remove", con, len(dl) == 1 and len(rm) == 1 and len(sc) == 1 and dotted(sc[0].args[0]) == "name", "removing a random variable removes its distribution, its entry of uncertain_variables and the design variable of the same name", node=f, stmt="distribution, uncertain name and design variable removed together")
@@ -781,6 +1005,56 @@ PARAMETRIC_TAGS = {
 SAME_FUNCTIONAL = ["compute_mean", "compute_standard_deviation", "compute_variance", "compute_maximum", "compute_minimum", "compute_quantile", "compute_moment"]
 
 
+# methods of a NumPy array computing the same functional as the NumPy function (same defaults, e.g. ddof=0)
+NDARRAY_METHODS = {"mean": "numpy.mean", "std": "numpy.std", "var": "numpy.var", "max": "numpy.max", "min": "numpy.min", "all": "numpy.all"}
+NDARRAY_MAKERS = {"to_numpy", "toarray"}
+
+
+def _library_routine(mod, call: ast.Call) -> str | None:
+    """Qualified name of the NumPy/SciPy routine a call evaluates: ``mean(a, 0)`` with ``from numpy import mean``,
+    ``np.mean(a, 0)`` with ``import numpy as np`` and ``a.mean(0)`` when ``a`` is visibly a NumPy array
+    (``....to_numpy()`` or the result of a NumPy function)."""
+    name = dotted(call.func)
+    if name:
+        head, _, rest = name.partition(".")
+        if head in mod.imports and (isinstance(call.func, ast.Name) or mod.imports[head] in ("numpy", "scipy", "scipy.stats")):
+            return mod.imports[head] + ("." + rest if rest else "")
+    if isinstance(call.func, ast.Attribute) and call.func.attr in NDARRAY_METHODS and isinstance(call.func.value, ast.Call):
+        recv = call.func.value
+        if isinstance(recv.func, ast.Attribute) and recv.func.attr in NDARRAY_MAKERS:
+            is_array = True
+        else:
+            is_array = (_library_routine(mod, recv) or "").startswith("numpy.")
+        if is_array:
+            return NDARRAY_METHODS[call.func.attr]
+    return None
+
+
+_FLIP = {"ge": "le", "le": "ge", "gt": "lt", "lt": "gt"}
+_CMP_OPS = {ast.GtE: "ge", ast.LtE: "le", ast.Gt: "gt", ast.Lt: "lt"}
+
+
+def _comparisons_with(mod, expr: ast.AST, name: str) -> list[str]:
+    """The order relations ``<other> REL <something reading name>`` evaluated in ``expr``, as operator names, whether
+    written with the functions of ``operator`` / NumPy (``ge(x, t)``, ``greater_equal(x, t)``) or as ``x >= t`` / ``t <= x``."""
+    funcs = {"operator.ge": "ge", "operator.le": "le", "operator.gt": "gt", "operator.lt": "lt", "numpy.greater_equal": "ge", "numpy.less_equal": "le", "numpy.greater": "gt", "numpy.less": "lt"}
+
+    def reads(e):
+        return any(isinstance(x, ast.Name) and x.id == name for x in ast.walk(e))
+
+    out = []
+    for n in ast.walk(expr):
+        rel = left = right = None
+        if isinstance(n, ast.Call) and len(n.args) == 2 and not n.keywords and _library_routine(mod, n) in funcs:
+            rel, (left, right) = funcs[_library_routine(mod, n)], n.args
+        elif isinstance(n, ast.Compare) and len(n.ops) == 1 and type(n.ops[0]) in _CMP_OPS:
+            rel, left, right = _CMP_OPS[type(n.ops[0])], n.left, n.comparators[0]
+        if rel is None or reads(left) == reads(right):
+            continue
+        out.append(rel if reads(right) else _FLIP[rel])
+    return out
+
+
 def check_statistics(ctx: Ctx) -> None:
     idx = ctx.index
     emod = idx.module(ES)
@@ -795,13 +1069,14 @@ def check_statistics(ctx: Ctx) -> None:
         etags = set()
         ekw = {}
         for c in walk_body(fe):
-            if isinstance(c, ast.Call) and isinstance(c.func, ast.Name) and c.func.id in emod.imports:
-                q = emod.imports[c.func.id]
-                if q.startswith(("numpy.", "scipy.")):
-                    tag = EMPIRICAL_TAGS.get(q, q)  # an unknown routine is its own functional: it cannot agree
-                    if tag:
-                        etags.add(tag)
-                        ekw[tag] = {k.arg: norm_stmt(k.value) for k in c.keywords}
+            if not isinstance(c, ast.Call):
+                continue
+            q = _library_routine(emod, c)
+            if q is not None and q.startswith(("numpy.", "scipy.")):
+                tag = EMPIRICAL_TAGS.get(q, q)  # an unknown routine is its own functional: it cannot agree
+                if tag:
+                    etags.add(tag)
+                    ekw[tag] = {k.arg: norm_stmt(k.value) for k in c.keywords}
         ptags = set()
         for n in walk_body(fp):
             if isinstance(n, ast.Attribute) and n.attr in PARAMETRIC_TAGS and (norm_stmt(n.value).endswith(".value") or norm_stmt(n.value).endswith(".value.distribution")):
@@ -825,9 +1100,19 @@ def check_statistics(ctx: Ctx) -> None:
         ctx.ob("19.7-estimators", cname(ES, "EmpiricalStatistics", "compute_variance"), a_[0] == b_[0], f"the empirical variance (ddof={b_[0]}) is not the square of the empirical standard deviation (ddof={a_[0]})", node=b_[1], stmt="variance and standard deviation use the same ddof")
     # tails of compute_probability
     fe, fp = es.methods["compute_probability"], pst.methods["compute_probability"]
-    sel = [n for n in walk_body(fe) if isinstance(n, ast.IfExp)]
-    ok = len(sel) == 1 and dotted(sel[0].test) == "greater" and [emod.imports.get(dotted(x)) for x in (sel[0].body, sel[0].orelse)] == ["operator.ge", "operator.le"]
-    ctx.ob("19.7-tails", cname(ES, "EmpiricalStatistics", "compute_probability"), ok, "the empirical probability is the frequency of X >= threshold when greater, of X <= threshold otherwise", node=(sel or [fe])[0], stmt="ge iff greater")
+    # the comparison of the samples with the threshold under each value of ``greater`` (operator.ge / a >= b / b <= a ...)
+    p_thr = _first_param(fe)
+    rets_e = [s_ for s_ in stmts_of(fe) if isinstance(s_, ast.Return) and s_.value is not None]
+    rel = {}
+    for value in (True, False):
+        found = set()
+        for r_ in rets_e:
+            for a in unfolded(fe, r_, facts={"greater": value}, get=lambda s_: s_.value) or []:
+                cmps = _comparisons_with(emod, a, p_thr)
+                found.add(cmps[0] if len(cmps) == 1 else None)
+        rel[value] = next(iter(found)) if len(found) == 1 else None
+    ok = rel == {True: "ge", False: "le"} and not any(isinstance(n, ast.Name) and n.id == "greater" and isinstance(n.ctx, ast.Store) for n in ast.walk(fe))
+    ctx.ob("19.7-tails", cname(ES, "EmpiricalStatistics", "compute_probability"), ok, f"the empirical probability is the frequency of X >= threshold when greater, of X <= threshold otherwise (found {rel})", node=(rets_e or [fe])[0], stmt="ge iff greater")
     sel = [n for n in ast.walk(fp) if isinstance(n, ast.IfExp)]
     ok = len(sel) == 1 and dotted(sel[0].test) == "greater" and norm_stmt(sel[0].body) == "1 - x" and norm_stmt(sel[0].orelse) == "x"
     lam = [n for n in ast.walk(fp) if isinstance(n, ast.Lambda)]
